@@ -21,6 +21,7 @@ import Rooc.Proofs.ComposeExamples
 import Rooc.Proofs.ComposeE2EExamples
 import Rooc.Proofs.LinDExamples2
 import Rooc.Proofs.ComposeWF
+import Rooc.Proofs.ComposeWFDomain
 import Rooc.Proofs.ComposeSolver
 import Rooc.Proofs.ComposeSolverExamples
 import Rooc.Proofs.ComposeReturn
@@ -295,8 +296,7 @@ residual and combines: any `unbounded` residual → `unbounded`; otherwise the b
 * DELEGATED: each continuous residual problem, to `sub`, under the contract `Ref.SubOK` (an answered verdict is right for
   the residual; `unknown` promises nothing).  The contract is an explicit hypothesis per residual; rooc's own exact simplex
   on the compiled residual meets it (`c03_slow_simplex_end_to_end_src_partial` below), and for a model WITHOUT continuous
-  declarations the residuals have no variables left and `refSolve` itself is the instance (`refSolve` never answers
-  `continuous` then).
+  declarations plain evaluation meets it (`subConst_meets_contract`).
 No `Closed` hypothesis is needed here (substitution handles every name); declared names pairwise distinct is
 (`IndexMap` keys). -/
 
@@ -393,6 +393,26 @@ theorem refSolveMixed_feasible_not_infeasible {sub : Model (Ext K) → SubVerdic
   intro h
   have := refSolveMixed_infeasible_sound hnd hsub h ρ
   rw [hf] at this; cases this
+
+/-- the delegation contract is MET by plain evaluation when nothing continuous is left: for a closed model whose used
+declarations are all enumerable, `Ref.subConst` (evaluate the variable-free residual once) satisfies `SubOK` on every residual
+— so `SubOK` is satisfiable for every discrete model and the mixed reference specialises to an exact decision procedure. -/
+theorem subConst_meets_contract {m : Model (Ext K)} {asg : List (List (String × K))}
+    (hasg : assignments m.domain = some asg) (hc : Closed m = true) (hnd : (m.domain.map (·.name)).Nodup) :
+    ∀ a ∈ discreteAssignments m.domain, SubOK (residual a m) (subConst (residual a m)) :=
+  fun _ ha => subConst_ok hasg hc hnd ha
+
+/-- on a discrete model the mixed reference with `subConst` and the enumerating reference agree on `infeasible`, and an
+`optimal v w` of the mixed reference is an optimum of the model in the sense of `refSolve_optimal_spec`. -/
+theorem refSolveMixed_discrete {m : Model (Ext K)} {asg : List (List (String × K))}
+    (hasg : assignments m.domain = some asg) (hc : Closed m = true) (hnd : (m.domain.map (·.name)).Nodup) :
+    (refSolveMixed subConst m = .infeasible → refSolve m = .infeasible) ∧
+    (∀ v w, refSolveMixed subConst m = .optimal v w →
+      srcFeasible m (lookup w) = true ∧ eval (lookup w) m.objective = some v ∧
+      ∀ ρ : String → K, srcFeasible m ρ = true → ∀ v', eval ρ m.objective = some v' → better m.optType v' v = false) :=
+  ⟨fun h => (refSolve_infeasible_iff hasg hc).2
+      (refSolveMixed_infeasible_sound hnd (subConst_meets_contract hasg hc hnd) h),
+   fun _ _ h => refSolveMixed_optimal_spec hnd (subConst_meets_contract hasg hc hnd) h⟩
 
 /-! ### Non-vacuity: concrete models at `K = ℚ`
 
@@ -990,6 +1010,52 @@ example (t : ℚ) (ht : 0 ≤ t) :
   have := h.2.2 ρ hρ u hu
   simpa [exSrc, better_max] using this
 
+/-! #### … and with `DomainFormat lm` discharged too: hypotheses on the SOURCE only
+
+`ComposeWF.domainFormat_of_compile` (agent-c08proof / agent-bounds: bound inference publishes proper ranges, the lowering
+declares auxiliaries with proper ranges) derives `DomainFormat lm` from `Lin.DomainProper m.domain` — every declared
+`Real(lo, hi)` has `lo` finite or `−inf`, `hi` finite or `+inf`; every `NonNegativeReal(lo, hi)` has `0 ≤ lo` finite — a
+decidable fact about the DECLARATIONS.  What remains besides the source contract is the run itself. -/
+
+/-- **source optimum from the built-in simplex — every hypothesis about the model is about the SOURCE.** -/
+theorem c03_slow_simplex_end_to_end_source_partial {m : Model (Ext K)} {t : K} (ht : 0 ≤ t) {maxSteps : Nat}
+    {lm : LinModel (Ext K)} (h : Compile.linearize m (.fin t) maxSteps = .ok lm)
+    (hm : LogicModel m m.domain) (hsh : AssertShape m) (hok : DeclOK m.domain)
+    (ht1 : t < 1 ∨ NoIntegerVars m.domain) (hdp : Lin.DomainProper m.domain)
+    {s : StdModel (Ext K)} (hs : standardize lm = .ok s)
+    {T : Tab K} (hT : CanonicalFor T (stdK s)) (stallExtra limit : Nat) (prefer : List Nat)
+    (hfin : (solve (0:K) stallExtra limit prefer T).result = .ok ()) :
+    srcFeasible m (pointOf lm.vars (preimage lm (basicSolution (solve (0:K) stallExtra limit prefer T).final))) = true ∧
+    eval (pointOf lm.vars (preimage lm (basicSolution (solve (0:K) stallExtra limit prefer T).final))) m.objective =
+      some (optimalValue (solve (0:K) stallExtra limit prefer T).final) ∧
+    ∀ ρ : String → K, srcFeasible m ρ = true → ∀ u, eval ρ m.objective = some u →
+      better m.optType u (optimalValue (solve (0:K) stallExtra limit prefer T).final) = false :=
+  c03_slow_simplex_end_to_end_src_partial ht h hm hsh hok ht1 hs
+    (ComposeWF.domainFormat_of_compile hdp (ComposeWF.finiteLits_of_logicModel hm) h) hT stallExtra limit prefer hfin
+
+/-- **source unboundedness from the built-in simplex, source-side hypotheses only.** -/
+theorem c03_slow_simplex_unbounded_end_to_end_source_partial {m : Model (Ext K)} {t : K} (ht : 0 ≤ t) {maxSteps : Nat}
+    {lm : LinModel (Ext K)} (h : Compile.linearize m (.fin t) maxSteps = .ok lm)
+    (hm : LogicModel m m.domain) (hsh : AssertShape m) (hok : DeclOK m.domain)
+    (ht1 : t < 1 ∨ NoIntegerVars m.domain) (hdp : Lin.DomainProper m.domain)
+    {s : StdModel (Ext K)} (hs : standardize lm = .ok s)
+    {T : Tab K} (hT : CanonicalFor T (stdK s)) (stallExtra limit : Nat) (prefer : List Nat)
+    (hunb : (solve (0:K) stallExtra limit prefer T).result = .error .unbounded) : SrcUnbounded m :=
+  c03_slow_simplex_unbounded_end_to_end_src_partial ht h hm hsh hok ht1 hs
+    (ComposeWF.domainFormat_of_compile hdp (ComposeWF.finiteLits_of_logicModel hm) h) hT stallExtra limit prefer hunb
+
+/-- **source infeasibility from the built-in simplex, source-side hypotheses only.** -/
+theorem c03_slow_simplex_infeasible_end_to_end_source_partial {m : Model (Ext K)} {t : K} (ht : 0 ≤ t) {maxSteps : Nat}
+    {lm : LinModel (Ext K)} (h : Compile.linearize m (.fin t) maxSteps = .ok lm)
+    (hm : LogicModel m m.domain) (hsh : AssertShape m) (hok : DeclOK m.domain)
+    (ht1 : t < 1 ∨ NoIntegerVars m.domain) (hdp : Lin.DomainProper m.domain)
+    {s : StdModel (Ext K)} (hs : standardize lm = .ok s) (stallExtra limit : Nat) (prefer : List Nat)
+    (hp1 : (solve (0:K) stallExtra limit prefer (phase1Tab (stdK s))).result = .ok ())
+    (hneg : (solve (0:K) stallExtra limit prefer (phase1Tab (stdK s))).final.value < 0) :
+    ∀ ρ : String → K, srcFeasible m ρ = false :=
+  c03_slow_simplex_infeasible_end_to_end_src_partial ht h hm hsh hok ht1 hs
+    (ComposeWF.domainFormat_of_compile hdp (ComposeWF.finiteLits_of_logicModel hm) h) stallExtra limit prefer hp1 hneg
+
 end EndToEnd
 
 /-! ### the default solver path: property C03 as stated, with microlp as the recorded assumption
@@ -1198,6 +1264,36 @@ example (solver : LinModel (Ext ℚ) → MlpOutcome (Ext ℚ)) (t : ℚ) (ht : 0
   subst this
   exact ⟨hone, w, hr⟩
 
+/-- **the whole default path from a program, as ONE diffed function.**  `Pipeline.solveProg p typeChecks tol n solver`
+(`Rooc/Pipeline.lean`) models `RoocSolver::try_new(text)?.solve_using(auto_solver)` on the iteration fragment: parser's
+arity rule, type checker (a parameter: the verdict of the real one), `transform` (`Pre.transformCore`, agent-pre's C06
+model), `Linearizer::linearize`, `auto_solver`; every `./check C03` run compares it arm by arm and `LpSolution` by
+`LpSolution` with the real entry point on generated program texts.  Whenever it answers past the front end, the
+transformed model `m` exists and — under the contract on `m` and the recorded assumption `SolverSpec` — a solution
+labelled Optimal satisfies `m` and carries the reference's optimum, and `Err(Solver(Infeasible))` means `refSolve m =
+infeasible`. -/
+theorem c03_solve_prog_logic_partial {solver : LinModel (Ext K) → MlpOutcome (Ext K)} {p : Pre.ProgM} {tc : Bool}
+    {t : K} (ht : 0 ≤ t) {maxSteps : Nat}
+    (hcontract : ∀ m : Model (Ext K), (Pre.transformCore p : Except Pre.IErr (Model (Ext K))) = .ok m →
+      LogicModel m m.domain ∧ AssertShape m ∧ DeclOK m.domain ∧ (t < 1 ∨ NoIntegerVars m.domain) ∧
+      (∃ asg, assignments m.domain = some asg) ∧
+      ∀ lm, Compile.linearize m (.fin t) maxSteps = .ok lm → SolverSpec lm (solver lm)) :
+    (∀ lm sol, Pipeline.solveProg p tc (.fin t) maxSteps solver = .compiled (.solved lm sol) → sol.status = .optimal →
+      ∃ m : Model (Ext K), (Pre.transformCore p : Except Pre.IErr (Model (Ext K))) = .ok m ∧
+        srcFeasible m (assignmentOf sol) = true ∧
+        (m.optType ≠ .satisfy → ∃ v w, refSolve m = .optimal v w ∧ sol.value = .fin v) ∧
+        (m.optType = .satisfy → ∃ w, refSolve m = .feasibleAny w)) ∧
+    (Pipeline.solveProg p tc (.fin t) maxSteps solver = .compiled (.solver "Infeasible") →
+      ∃ m : Model (Ext K), (Pre.transformCore p : Except Pre.IErr (Model (Ext K))) = .ok m ∧
+        refSolve m = .infeasible ∧ ∀ ρ : String → K, srcFeasible m ρ = false) := by
+  refine ⟨fun lm sol hp hst => ?_, fun hp => ?_⟩
+  · obtain ⟨_, _, m, hm, hu⟩ := solveProg_compiled hp
+    obtain ⟨h1, h2, h3, h4, ⟨asg, ha⟩, hspec⟩ := hcontract m hm
+    exact ⟨m, hm, (c03_solve_using_logic_partial ht h1 h2 h3 h4 ha hspec).1 lm sol hu hst⟩
+  · obtain ⟨_, _, m, hm, hu⟩ := solveProg_compiled hp
+    obtain ⟨h1, h2, h3, h4, ⟨asg, ha⟩, hspec⟩ := hcontract m hm
+    exact ⟨m, hm, (c03_solve_using_logic_partial ht h1 h2 h3 h4 ha hspec).2 hu⟩
+
 /-! ### any answer honouring the contract, judged against the SOURCE semantics (no enumerability needed), and the
 fully proved instance: `Compile.linearize` ∘ `to_standard_form` ∘ `into_tableau` ∘ step loop ∘ `as_lp_solution` -/
 
@@ -1279,6 +1375,52 @@ example (t : ℚ) (ht : 0 ≤ t) :
   refine ⟨hs, v, hv, fun ρ hρ u hu => ?_⟩
   have := hbest ρ hρ u hu
   simpa [exSrc, better_max] using this
+
+/-- **the returned `LpSolution` of rooc's simplex path is a source optimum — `DomainFormat` discharged**: besides the
+source contract and `Lin.DomainProper m.domain` (declarations), only facts about the RUN remain (success of
+`to_standard_form`, plain names of the kept variables, `StartFacts`, the loop's verdict). -/
+theorem c03_slow_simplex_returned_solution_source_partial {m : Model (Ext K)} {t : K} (ht : 0 ≤ t) {maxSteps : Nat}
+    {lm : LinModel (Ext K)} (h : Compile.linearize m (.fin t) maxSteps = .ok lm)
+    (hm : LogicModel m m.domain) (hsh : AssertShape m) (hok : DeclOK m.domain)
+    (ht1 : t < 1 ∨ NoIntegerVars m.domain) (hdp : Lin.DomainProper m.domain)
+    {s : StdModel (Ext K)} (hs : Standardize.standardize lm = .ok s)
+    (hpl : ∀ v ∈ StdLayout.keep (StdSpec.flags lm) lm.vars, ComposeNames.plain v = true)
+    {tol : K} (htol : 0 < tol) (stallExtra phase1Limit : Nat)
+    (hfacts : ComposeSimplex.StartFacts tol stallExtra phase1Limit (ComposeSimplex.stdK s))
+    {T : Tab K} (hT : @Tableau.intoTableau K (exactArith K) tol stallExtra phase1Limit (ComposeSimplex.stdK s) = .ok T)
+    (limit : Nat) (prefer : List Nat)
+    (hfin : (@Tableau.solve K (exactArith K) 0 stallExtra limit prefer T).result = .ok ()) :
+    srcFeasible m (assignmentOf (ComposeSimplex.returnedSolution s
+      (@Tableau.solve K (exactArith K) 0 stallExtra limit prefer T).final)) = true ∧
+    ∃ v, (ComposeSimplex.returnedSolution s (@Tableau.solve K (exactArith K) 0 stallExtra limit prefer T).final).value
+        = .fin v ∧
+      eval (assignmentOf (ComposeSimplex.returnedSolution s
+        (@Tableau.solve K (exactArith K) 0 stallExtra limit prefer T).final)) m.objective = some v ∧
+      ∀ ρ : String → K, srcFeasible m ρ = true → ∀ u, eval ρ m.objective = some u → better m.optType u v = false :=
+  c03_slow_simplex_returned_solution_partial ht h hm hsh hok ht1 hs
+    (ComposeWF.domainFormat_of_compile hdp (ComposeWF.finiteLits_of_logicModel hm) h) hpl htol stallExtra phase1Limit
+    hfacts hT limit prefer hfin
+
+open Rooc.ComposeSem Rooc.ComposeSimplex in
+/-- non-vacuity of the source-only form: for `exSrc` (`max x s.t. c: x ≤ 2`, `x` NonNegativeReal) the declarations are
+proper, and with the run facts established before the theorem applies. -/
+example (t : ℚ) (ht : 0 ≤ t) :
+    srcFeasible exSrc (assignmentOf (ComposeSimplex.returnedSolution exMaxStd exTM')) = true := by
+  have hdp : Lin.DomainProper exSrc.domain := by
+    intro v hv
+    simp only [exSrc, List.mem_singleton] at hv
+    subst hv
+    refine ⟨by simp [Lin.fin?, Arith.isFinite, Ext.isFinite], by simp [Arith.le, Arith.zero, Arith.ofInt, Ext.le], ?_⟩
+    exact (Lin.UOK_iff _).mpr (Or.inr rfl)
+  have hpl : ∀ v ∈ StdLayout.keep (StdSpec.flags exMax) exMax.vars, ComposeNames.plain v = true := by
+    intro v hv
+    have := (ComposeNames.keep_sublist _ _).subset hv
+    simp only [exMax, List.mem_singleton] at this; subst this; decide
+  have h := c03_slow_simplex_returned_solution_source_partial ht (exSrc_compile (.fin t))
+    (LogicModel.ofFragModel exSrc_frag) (assertShape_of_fragModel exSrc_frag) exSrc_declOK (Or.inr exSrc_noInt) hdp
+    exMax_std hpl (tol := (1/100000 : ℚ)) (by norm_num) 1 10 exMax_startFacts exMax_intoTableau 10 [] exTM'_solve.1
+  rw [exTM'_solve.2] at h
+  exact h.1
 
 end DefaultSolver
 end Composition
